@@ -115,6 +115,7 @@ func RunStress(s Stress) *Trace {
 					}
 					err = fakech.ErrorOf(class, c.Seq)
 				}
+				hs.Rec.ArmWaiters(KindOfCall(c), 2, func(j int) int { return int(i*211+int64(j)*1597) % 3000 })
 				hs.DB.Release(c, err)
 			}
 			time.Sleep(100 * time.Microsecond)
